@@ -1290,6 +1290,16 @@ class TmUnit:
             raise Unsupported(self.unprepared[key])
         if key not in self.prepared:
             raise Unsupported(f"{name} not found")
+        # a callee that cannot be read: say so (instead of a consequential error)
+        callees = []
+        def fe(e):
+            ck = self.jf.callee_key(key, e) if e[0] in ("call", "mcall") else None
+            if ck is not None and ck not in callees:
+                callees.append(ck)
+        walk_block(self.prepared[key][0], fe)
+        for ck in callees:
+            if ck in self.unprepared:
+                raise Unsupported(f"depends on {ck[1]}, which is not translated")
         elim = self.prepared[key][1].get("eliminated")
         if elim:
             mine = [n for n, (k, f) in self.jf.nested.items() if k == key]
